@@ -83,18 +83,12 @@ func permutations(n int) [][]int {
 	return out
 }
 
-func TestVerifReplaySched(t *testing.T) {
-	data, err := os.ReadFile(os.Getenv("VERIF_SCENARIO"))
-	if err != nil {
-		t.Skip("no scenario")
-	}
-	var sc schedScenario
-	if err := json.Unmarshal(data, &sc); err != nil {
-		t.Fatal(err)
-	}
-	n, edges := int(sc.Args[0]), int(sc.Args[1])
+type schedAttrs map[string]bool
+
+// runSched runs the real scheduler on graph (n, edges) with the given stage attributes
+// under the given priority orders; returns the first violation found ("" if none).
+func runSched(n, edges int, b func(string) bool, prios [][]int) (string, bool) {
 	names := []string{"a", "b", "c", "d"}[:n]
-	b := func(k string) bool { v, _ := sc.Inputs[k].(bool); return v }
 	dep := make([][]int, n)
 	k := 0
 	for i := 0; i < n; i++ {
@@ -108,7 +102,6 @@ func TestVerifReplaySched(t *testing.T) {
 			k++
 		}
 	}
-	// reference model
 	const (
 		mSkipped = iota
 		mCanceled
@@ -152,8 +145,12 @@ func TestVerifReplaySched(t *testing.T) {
 			done[j] = true
 		}
 	}
-	var allViol []string
-	for _, prio := range permutations(n) {
+	for _, ok := range done {
+		if !ok {
+			return "", false // cyclic
+		}
+	}
+	for _, prio := range prios {
 		var stages []*Stage
 		r := &ctlRunner{finished: map[string]bool{}, inflight: map[string]chan struct{}{}, fail: map[string]bool{}, runs: map[string]int{}, byTask: map[*task.Task]string{}, deps: map[string][]string{}}
 		for j, nm := range names {
@@ -186,15 +183,14 @@ func TestVerifReplaySched(t *testing.T) {
 		}
 		g, err := NewExecutionGraph(stages...)
 		if err != nil {
-			fmt.Println("REPLAY: not-replayable (graph rejected):", err)
-			return
+			return "", false
 		}
 		sd := NewScheduler(r)
 		resCh := make(chan error, 1)
 		go func() { resCh <- sd.Schedule(g) }()
 		var runErr error
 		returned := false
-		deadline := time.Now().Add(20 * time.Second)
+		deadline := time.Now().Add(15 * time.Second)
 		stable := 0
 		lastStarted := -1
 		for !returned && time.Now().Before(deadline) {
@@ -212,7 +208,6 @@ func TestVerifReplaySched(t *testing.T) {
 				lastStarted = len(r.started)
 			}
 			if stable >= 4 && len(r.inflight) > 0 {
-				// C04: everything eligible now must be in flight
 				for j, nm := range names {
 					if r.runs[nm] > 0 || model[j] == mSkipped || model[j] == mCanceled {
 						continue
@@ -228,7 +223,6 @@ func TestVerifReplaySched(t *testing.T) {
 						r.viol = append(r.viol, fmt.Sprintf("C04: %s is eligible but was not started while %d other task(s) are still running", nm, len(r.inflight)))
 					}
 				}
-				// release the in-flight task with the highest priority
 				best := ""
 				bestP := 1 << 30
 				for nm := range r.inflight {
@@ -285,14 +279,209 @@ func TestVerifReplaySched(t *testing.T) {
 		r.mu.Unlock()
 		if len(viol) > 0 {
 			sort.Strings(viol)
-			allViol = append(allViol, fmt.Sprintf("order %v: %s", prio, strings.Join(viol, "; ")))
-			break
+			return fmt.Sprintf("graph n=%d deps=%v model=%v order %v: %s", n, dep, model, prio, strings.Join(viol, "; ")), true
 		}
 	}
-	fmt.Printf("REPLAY: graph n=%d edges=%b deps=%v model=%v\n", n, edges, dep, model)
-	if len(allViol) > 0 {
-		fmt.Println("REPLAY: reproduced:", allViol[0])
+	return "", true
+}
+
+func TestVerifReplaySched(t *testing.T) {
+	data, err := os.ReadFile(os.Getenv("VERIF_SCENARIO"))
+	if err != nil {
+		t.Skip("no scenario")
+	}
+	var sc schedScenario
+	if err := json.Unmarshal(data, &sc); err != nil {
+		t.Fatal(err)
+	}
+	n, edges := int(sc.Args[0]), int(sc.Args[1])
+	b := func(k string) bool { v, _ := sc.Inputs[k].(bool); return v }
+	if v, ok := runSched(n, edges, b, permutations(n)); v != "" {
+		fmt.Println("REPLAY: reproduced:", v)
+		return
+	} else if !ok {
+		fmt.Println("REPLAY: scenario graph is not acyclic")
+	}
+	// The inductive counterexample's own graph may not exhibit the defect from the initial
+	// state: confirm natively on the other 3-stage graphs (all stages succeeding, each stage
+	// failing hard / with allow_failure, and the scenario's attributes), 16 runs at a time.
+	type job struct {
+		edges int
+		attrs schedAttrs
+	}
+	var jobs []job
+	names := []string{"a", "b", "c"}
+	for e := 0; e < 64; e++ {
+		jobs = append(jobs, job{e, schedAttrs{}})
+		for _, nm := range names {
+			jobs = append(jobs, job{e, schedAttrs{"fails." + nm: true}})
+			jobs = append(jobs, job{e, schedAttrs{"fails." + nm: true, "allow." + nm: true}})
+			jobs = append(jobs, job{e, schedAttrs{"fails." + nm: true, "allow.a": true, "allow.b": true, "allow.c": true}})
+		}
+		sa := schedAttrs{}
+		for k, v := range sc.Inputs {
+			if bv, ok := v.(bool); ok {
+				sa[k] = bv
+			}
+		}
+		jobs = append(jobs, job{e, sa})
+	}
+	found := make(chan string, len(jobs))
+	sem := make(chan struct{}, 16)
+	var wg sync.WaitGroup
+	for _, j := range jobs {
+		j := j
+		wg.Add(1)
+		go func() {
+			defer wg.Done()
+			sem <- struct{}{}
+			defer func() { <-sem }()
+			if v, _ := runSched(3, j.edges, func(k string) bool { return j.attrs[k] }, [][]int{{0, 1, 2}, {2, 1, 0}}); v != "" {
+				found <- v
+			}
+		}()
+	}
+	wg.Wait()
+	close(found)
+	var all []string
+	for v := range found {
+		all = append(all, v)
+	}
+	sort.Strings(all)
+	if len(all) > 0 {
+		fmt.Printf("REPLAY: reproduced (on %d of %d native runs; first): %s\n", len(all), len(jobs), all[0])
+		// one line naming every property whose oracle failed somewhere
+		seen := map[string]bool{}
+		for _, v := range all {
+			for _, id := range []string{"C01:", "C02:", "C03:", "C04:"} {
+				if strings.Contains(v, id) {
+					seen[id] = true
+				}
+			}
+		}
+		var ids []string
+		for id := range seen {
+			ids = append(ids, id)
+		}
+		sort.Strings(ids)
+		fmt.Println("REPLAY: reproduced: oracles failing natively:", strings.Join(ids, " "))
 	} else {
-		fmt.Println("REPLAY: not-reproduced (real scheduler satisfies C01-C04 on this graph and outcome assignment under every completion order tried)")
+		fmt.Println("REPLAY: not-reproduced (real scheduler satisfies C01-C04 on the scenario and on all 3-stage graphs tried)")
+	}
+}
+
+// ---- nested pipelines (VerifSchedNested) ----
+
+type nestRunner struct {
+	mu    sync.Mutex
+	info  map[*task.Task]*nestInfo
+	viol  []string
+	delay time.Duration
+}
+type nestInfo struct {
+	label string
+	st    *Stage
+	deps  []*Stage
+	fail  bool
+	runs  int
+}
+
+func (r *nestRunner) Run(t *task.Task) error {
+	r.mu.Lock()
+	x := r.info[t]
+	x.runs++
+	for _, d := range x.deps {
+		s := d.ReadStatus()
+		if !(s == StatusDone || s == StatusSkipped || (s == StatusError && d.AllowFailure)) {
+			r.viol = append(r.viol, fmt.Sprintf("C01: %s started while its dependency %s has status %d", x.label, d.Name, s))
+		}
+	}
+	r.mu.Unlock()
+	time.Sleep(r.delay)
+	if x.fail {
+		return errors.New("task failed")
+	}
+	return nil
+}
+func (r *nestRunner) Cancel() {}
+func (r *nestRunner) Finish() {}
+
+func TestVerifReplaySchedNested(t *testing.T) {
+	data, err := os.ReadFile(os.Getenv("VERIF_SCENARIO"))
+	if err != nil {
+		t.Skip("no scenario")
+	}
+	var sc schedScenario
+	json.Unmarshal(data, &sc)
+	innerEdges, pdeps, ab := int(sc.Args[0]), int(sc.Args[1]), int(sc.Args[2])
+	b := func(k string) bool { v, _ := sc.Inputs[k].(bool); return v }
+	r := &nestRunner{info: map[*task.Task]*nestInfo{}, delay: 130 * time.Millisecond}
+	build := func(names []string, edges int, prefix string) ([]*Stage, *ExecutionGraph) {
+		var stages []*Stage
+		for _, nm := range names {
+			tk := task.FromCommands("true")
+			s := &Stage{Name: nm, Task: tk}
+			stages = append(stages, s)
+			r.info[tk] = &nestInfo{label: prefix + "." + nm, st: s, fail: b(prefix + ".fails." + nm)}
+		}
+		k := 0
+		for i := range names {
+			for j := range names {
+				if i == j {
+					continue
+				}
+				if edges&(1<<k) != 0 {
+					stages[j].DependsOn = append(stages[j].DependsOn, names[i])
+					r.info[stages[j].Task].deps = append(r.info[stages[j].Task].deps, stages[i])
+				}
+				k++
+			}
+		}
+		g, err := NewExecutionGraph(stages...)
+		if err != nil {
+			return nil, nil
+		}
+		return stages, g
+	}
+	_, ig := build([]string{"a", "b", "c"}, innerEdges, "inner")
+	oe := 0
+	if ab == 1 {
+		oe = 1
+	}
+	outer, _ := build([]string{"a", "b"}, oe, "outer")
+	if ig == nil || outer == nil {
+		fmt.Println("REPLAY: not-replayable (cyclic graph)")
+		return
+	}
+	p := &Stage{Name: "c", Pipeline: ig}
+	if pdeps&1 != 0 {
+		p.DependsOn = append(p.DependsOn, "a")
+	}
+	if pdeps&2 != 0 {
+		p.DependsOn = append(p.DependsOn, "b")
+	}
+	og, err := NewExecutionGraph(outer[0], outer[1], p)
+	if err != nil {
+		t.Fatal(err)
+	}
+	done := make(chan error, 1)
+	go func() { done <- NewScheduler(r).Schedule(og) }()
+	select {
+	case <-done:
+	case <-time.After(20 * time.Second):
+		r.viol = append(r.viol, "C03: nested run did not return")
+	}
+	r.mu.Lock()
+	defer r.mu.Unlock()
+	for _, x := range r.info {
+		if x.runs > 1 {
+			r.viol = append(r.viol, fmt.Sprintf("C03: %s ran %d times", x.label, x.runs))
+		}
+	}
+	if len(r.viol) > 0 {
+		sort.Strings(r.viol)
+		fmt.Println("REPLAY: reproduced:", strings.Join(r.viol, "; "))
+	} else {
+		fmt.Println("REPLAY: not-reproduced (real scheduler behaved on this nested pipeline)")
 	}
 }
